@@ -123,7 +123,8 @@ class LocalVolatilityStock(BasePrimary):
 
         output = generate_local_volatility_process(
             n_paths=n_paths,
-            n_steps=ceil(time_horizon / self.dt + 1),
+            # (round: time_horizon / dt may land just above an integer, e.g. (6 * 0.1) / 0.1)
+            n_steps=ceil(round(time_horizon / self.dt, 9) + 1),
             sigma_fn=self.sigma_fn,
             init_state=init_state,
             dt=self.dt,
